@@ -123,7 +123,61 @@ func mkEq(a, b string) string {
 	return sx("=", a, b)
 }
 
-func mkSelect(a, i string) string   { return sx("select", a, i) }
+func mkSelect(a, i string) string {
+	// select(store(A, i, v), i) = v  (syntactically equal index)
+	if strings.HasPrefix(a, "(store ") {
+		if args := topArgs(a); len(args) == 4 && args[2] == i {
+			return args[3]
+		}
+	}
+	return sx("select", a, i)
+}
+
+// topArgs splits "(op a b c)" into [op a b c] at nesting depth 1.
+func topArgs(s string) []string {
+	if len(s) < 2 || s[0] != '(' || s[len(s)-1] != ')' {
+		return nil
+	}
+	body := s[1 : len(s)-1]
+	var out []string
+	depth, start, inBar := 0, -1, false
+	for i := 0; i < len(body); i++ {
+		c := body[i]
+		if inBar {
+			if c == '|' {
+				inBar = false
+			}
+			continue
+		}
+		switch c {
+		case '|':
+			inBar = true
+			if start < 0 {
+				start = i
+			}
+		case '(':
+			if depth == 0 && start < 0 {
+				start = i
+			}
+			depth++
+		case ')':
+			depth--
+		case ' ', '\n', '\t':
+			if depth == 0 && start >= 0 {
+				out = append(out, body[start:i])
+				start = -1
+			}
+		default:
+			if start < 0 {
+				start = i
+			}
+		}
+	}
+	if start >= 0 {
+		out = append(out, body[start:])
+	}
+	return out
+}
 func mkStore(a, i, v string) string { return sx("store", a, i, v) }
 
 // ---------------------------------------------------------------------------
